@@ -27,6 +27,7 @@ pub struct Emitter<'a> {
     impls: Vec<(String, String, Vec<FnOut>)>, // (key, header, fns)
     free: Vec<FnOut>,
     pub vacuity: bool,
+    pub vacuity_all: bool,
 }
 
 fn json_str(s: &str) -> String {
@@ -81,7 +82,7 @@ pub fn filter_variant_lines(text: &str, variant: &str) -> String {
 
 impl<'a> Emitter<'a> {
     pub fn new(u: &'a Unit, variant: &str, verif: &str) -> Self {
-        Emitter { u, variant: variant.to_string(), verif: verif.to_string(), items: vec![], impls: vec![], free: vec![], vacuity: false }
+        Emitter { u, variant: variant.to_string(), verif: verif.to_string(), items: vec![], impls: vec![], free: vec![], vacuity: false, vacuity_all: false }
     }
 
     pub fn add_struct(&mut self, st: &ItemStruct, ss: &StructSpec) {
@@ -328,6 +329,9 @@ impl<'a> Emitter<'a> {
                     out.push(format!("{}#[verifier::allow_complex_invariants]", sig_indent));
                 }
                 out.push(format!("{}#[verifier::exec_allows_no_decreases_clause]", sig_indent));
+                if !f.spec.attrs.iter().any(|a| a.contains("spinoff_prover")) {
+                    out.push(format!("{}#[verifier::spinoff_prover]", sig_indent));
+                }
                 for a in f.spec.attrs.iter().filter(|a| a.starts_with("#[")) {
                     out.push(format!("{}{}", sig_indent, a));
                 }
@@ -356,7 +360,7 @@ impl<'a> Emitter<'a> {
                 let key = rest.trim_end_matches(");").trim_matches('"').to_string();
                 let f = cur_fn.expect("pt marker outside fn");
                 out.push(format!("{}{}.interfere(); // [inv@{}.{}]", indent, f.poolstr, f.spec.path, key));
-                if self.vacuity {
+                if self.vacuity && self.vacuity_all {
                     out.push(format!("{}if vx_nondet() {{ assert(false); }} // [vac {}.{}]", indent, f.spec.path, key));
                 }
                 continue;
